@@ -10,6 +10,9 @@ import sys
 VERIF_DIR = os.path.dirname(os.path.dirname(os.path.abspath(__file__)))
 REPO = os.path.abspath(os.environ.get("VERIF_REPO", "/repo"))
 DEPS = os.path.join(VERIF_DIR, ".deps")
+# where evidence/ and replays/ go: /verif itself, except in the sensitivity self-test (tools/mutants.py), which must not
+# overwrite the evidence of the real tree
+OUT_DIR = os.path.abspath(os.environ.get("VERIF_OUT", VERIF_DIR))
 WHEELS = "/opt/veriftools/wheels"
 GUARD = "PRTPY_VERIF"           # reserved name of the hook guard; no source hook exists
 
